@@ -24,4 +24,7 @@ LEVEL_TEXT = "exploration: end-to-end contract of solve() against brute force on
 LEVEL_NOTE = "trusted: specs/den.py, specs/sugar_ref.py (deduction mode of the external solver), z3; scope: <= 4 variables, domains <= 4 values"
 TRUSTED = ["specs/den.py", "specs/sugar_ref.py", "z3 through cspuz's own back end"]
 ASSUMPTIONS = ["external solvers replaced by the reference implementation"]
-HARNESS_MODULES = ["contracts.c02_refinement"]
+HARNESS_MODULES = ["contracts.c02_refinement", "contracts.c01_z3_backend", "contracts.c03_sugar"]
+# the refinement proof assumes the back-end contract "solve() decides the constraints added so far and leaves a model in
+# sol"; its z3 half is the contract proved by C01/solve, the text back ends' deduction-mode half by C03/solve_irrefutably_protocol
+EXTRA_HARNESSES = [("C01", "solve"), ("C01", "add_constraint"), ("C03", "solve_irrefutably_protocol")]
